@@ -16,6 +16,8 @@ STREAM_SPECS = {
     'tiles1x2':   ({'enc_mode': 8, 'tile_columns': 1, 'tile_rows': 0, 'logical_processors': 2}, {'kind': 'moving', 'seed': 16}, 6, (256, 192)),   # more tile columns than rows
     'tiles2x1':   ({'enc_mode': 8, 'tile_columns': 0, 'tile_rows': 1, 'logical_processors': 2}, {'kind': 'moving', 'seed': 17}, 6, (192, 256)),   # more tile rows than columns
     'tiles1x4':   ({'enc_mode': 8, 'tile_columns': 2, 'tile_rows': 0, 'logical_processors': 2}, {'kind': 'mix', 'seed': 18}, 5, (512, 192)),
+    'wide64':     ({'enc_mode': 8, 'logical_processors': 1}, {'kind': 'mix', 'seed': 19}, 5, (192, 64)),
+    'k3w144':     ({'enc_mode': 8, 'logical_processors': 1, 'intra_period_length': 3, 'intra_refresh_type': 2}, {'kind': 'moving', 'seed': 20}, 9, (144, 64)),   # sequence header repeated at every key frame
     'ten':        ({'enc_mode': 7, 'encoder_bit_depth': 10, 'logical_processors': 1}, {'kind': 'mix', 'seed': 7}, 5, (64, 64)),
     'grain':      ({'enc_mode': 8, 'film_grain_denoise_strength': 10, 'logical_processors': 1}, {'kind': 'noise', 'seed': 8}, 5, (64, 64)),
     'lr_cdef':    ({'enc_mode': 4, 'enable_restoration_filtering': 1, 'cdef_level': 1, 'logical_processors': 2}, {'kind': 'hgrad', 'seed': 9}, 4, (128, 128)),
@@ -65,6 +67,10 @@ def inline_stream(case):
     try:
         with open(c['stream'], 'rb') as f:
             c['stream_hex'] = f.read().hex()
+        for o in c.get('transport') or []:
+            if o.get('path'):
+                with open(o['path'], 'rb') as f:
+                    o['path_hex'] = f.read().hex()
     except OSError:
         pass
     return c
@@ -96,15 +102,7 @@ def check_c08(tier, seed):
 @evaluator('single_dec')
 def eval_single_dec(cases, variant):
     """decoder cases whose stream may be embedded in the replay file"""
-    cs = []
-    for c in cases:
-        c = copy.deepcopy(c)
-        if 'stream_hex' in c:
-            os.makedirs(STREAM_DIR, exist_ok=True)
-            p = os.path.join(STREAM_DIR, 'replay_%s.tu' % hashlib.sha1(c['stream_hex'].encode()).hexdigest()[:12])
-            with open(p, 'wb') as f: f.write(bytes.fromhex(c['stream_hex']))
-            c['stream'] = p
-        cs.append(c)
+    cs = [_unhex(c) for c in cases]
     rs = pmap(lambda c: run_case(c, variant), cs, variant=variant); vs = []
     for c0, c, r in zip(cases, cs, rs):
         for v in single_violations(c, r, variant):
@@ -208,7 +206,7 @@ def build_c10_corpus(want=120, seed=20260921):
     import random as _r
     core.build('asan'); core.build('plain'); rng = _r.Random(seed)
     os.makedirs(CORPUS_DIR, exist_ok=True)
-    st = make_streams(['base8', 'screen', 'grain', 'lowdelay', 'tiles2x2'])
+    st = make_streams(['base8', 'screen', 'grain', 'lowdelay', 'tiles2x2', 'wide64', 'k3w144'])
     meta = {}
     for nm, s in st.items():
         dst = os.path.join(CORPUS_DIR, nm + '.tu'); 
@@ -220,7 +218,15 @@ def build_c10_corpus(want=120, seed=20260921):
         batch = []
         for _ in range(60):
             nm = rng.choice(list(meta)); sizes = tu_sizes(os.path.join(CORPUS_DIR, nm + '.tu'))
-            batch.append({'stream': nm, 'transport': transport_ops(rng, len(sizes), sizes), 'annexb': 0})
+            r = rng.random()
+            if r < 0.2:    # another stream (other picture size) continues on the same handle, optionally after cutting the first one
+                nm2 = rng.choice([x for x in meta if x != nm]); ops = [{'kind': 'concat', 'stream2': nm2, 'keep': rng.randint(1, len(sizes))}]
+                if rng.random() < 0.4: ops += transport_ops(rng, len(sizes), sizes)[:1]
+                batch.append({'stream': nm, 'transport': ops, 'annexb': 0})
+            elif r < 0.4:  # bit flips inside the (repeated) sequence headers: temporal delimiter (2 bytes) + OBU header/size (2 bytes) + payload
+                k = rng.randrange(len(sizes)); batch.append({'stream': nm, 'transport': [{'kind': 'flip', 'tu': k, 'bits': [rng.randrange(32, 32 + 12 * 8) for _ in range(rng.choice([1, 1, 2]))]}], 'annexb': 0})
+            else:
+                batch.append({'stream': nm, 'transport': transport_ops(rng, len(sizes), sizes), 'annexb': 0})
         cases = [corpus_case(b, meta) for b in batch]
         rs = pmap(lambda c: run_case(c, 'asan'), cases, variant='asan'); tried += len(batch)
         for b, c, r in zip(batch, cases, rs):
@@ -232,9 +238,14 @@ def build_c10_corpus(want=120, seed=20260921):
     return len(keep), tried
 
 def corpus_case(b, meta):
-    m = meta[b['stream']]
-    return {'world': 'dec', 'stream': os.path.join(CORPUS_DIR, b['stream'] + '.tu'), 'w': m['w'], 'h': m['h'], 'bd': m['bd'], 'threads': 1, 'sim': {'policy': 'np', 'seed': 1}, 'oracles': {}, 'wall_timeout': 40,
-            'transport': b['transport'], 'annexb': b.get('annexb', 0), '_stream': b['stream'], '_corpus': 1}
+    m = meta[b['stream']]; w, h = m['w'], m['h']; ops = []
+    for o in b['transport']:
+        o = dict(o)
+        if o.get('kind') == 'concat':
+            m2 = meta[o['stream2']]; w, h = max(w, m2['w']), max(h, m2['h']); o['path'] = os.path.join(CORPUS_DIR, o['stream2'] + '.tu')
+        ops.append(o)
+    return {'world': 'dec', 'stream': os.path.join(CORPUS_DIR, b['stream'] + '.tu'), 'w': w, 'h': h, 'bd': m['bd'], 'threads': 1, 'sim': {'policy': 'np', 'seed': 1}, 'oracles': {}, 'wall_timeout': 40,
+            'transport': ops, 'annexb': b.get('annexb', 0), '_stream': b['stream'], '_corpus': 1}
 
 @check('C10')
 def check_c10(tier, seed):
@@ -406,6 +417,11 @@ def _unhex(c):
         p = os.path.join(STREAM_DIR, 'replay_%s.tu' % hashlib.sha1(c['stream_hex'].encode()).hexdigest()[:12])
         with open(p, 'wb') as f: f.write(bytes.fromhex(c['stream_hex']))
         c['stream'] = p
+        for o in c.get('transport') or []:
+            if o.get('path_hex'):
+                p2 = os.path.join(STREAM_DIR, 'replay_%s.tu' % hashlib.sha1(o['path_hex'].encode()).hexdigest()[:12])
+                with open(p2, 'wb') as f: f.write(bytes.fromhex(o['path_hex']))
+                o['path'] = p2
     return c
 
 # ---- C15 ----------------------------------------------------------------------------------------------------
